@@ -198,7 +198,9 @@ Definition copy_one (env : envmap) (o : copy_opts) (dir_mode file_mode : option 
                   let dst := set_mode (set_path src dst_path) (orelse file_mode (Some (e_mode src))) in
                   match add m1 dst with
                   | (m2, inr e) => (m2, inr e)
-                  | (m2, inl _) =>
+                  | (m2a, inl _) =>
+                      (* an existing destination keeps its entry; a requested mode still applies to it *)
+                      let m2 := match file_mode with Some md => set_mode_at m2a dst_path md | None => m2a end in
                       if negb (e_link src) then
                         (* _clone_file(src.path()) then insert_file(dst_path, ..) *)
                         if negb (e_file src) then (m2, inr EIsNotFile) else
